@@ -267,4 +267,103 @@ theorem mon_only_offered (acts : List (Action R)) (s : State R) (x : R)
           · simp only [upd_other _ _ _ hxr, hreg]; exact h0
     · cases a <;> simp [offered, h1]
 
+/-! ### the cache shows the last effective offer, whatever the monitors do (C15's "latest wins"
+     clause in the presence of background re-preparation) -/
+
+/-- the externally visible part of a cache entry: offered version and declared dependencies -/
+def view (s : State R) (x : R) : Option (Nat × List R) := (s.cache x).map (fun e => (e.version, e.deps))
+
+/-- a plain map that follows offers and deletes and ignores monitor steps (the C15 specification) -/
+def track (m : R → Option (Nat × List R)) : Action R → (R → Option (Nat × List R))
+  | .offer r v deps =>
+    match m r with
+    | some (v', _) => if v' = v then m else upd m r (some (v, deps))
+    | none => upd m r (some (v, deps))
+  | .delete r ver =>
+    match m r with
+    | none => m
+    | some (v', _) => if staleVersion ver v' then m else upd m r none
+  | .bg _ => m
+
+theorem register_cache (s : State R) (r : R) : (register s r).cache = s.cache := by
+  unfold register; split <;> rfl
+
+theorem view_reprepare (s : State R) (r : R) : view (reprepare s r) = view s := by
+  cases hc : s.cache r with
+  | none => rw [(reprepare_frame s r).2.2.2 hc]
+  | some e =>
+    rw [reprepare_eq hc, handle_eq]
+    funext x
+    by_cases hx : x = r
+    · subst hx; simp [view, commitState, tick, hc]
+    · simp [view, commitState, tick, upd_other _ _ _ hx]
+
+theorem view_drain (q : List Nat) (s : State R) (r : R) : view (drain s r q) = view s := by
+  induction q generalizing s with
+  | nil => rfl
+  | cons t rest ih =>
+    unfold drain; split
+    · exact ih s
+    · rw [ih, view_reprepare]
+
+theorem view_runDrain (s : State R) (r : R) : view (runDrain s r) = view s := by
+  unfold runDrain
+  split
+  · rfl
+  · rw [view_drain]; rfl
+
+theorem view_bg (s : State R) (r : R) : view (bg s r) = view s := by
+  unfold bg
+  split
+  · rfl
+  · rw [view_runDrain]; funext x; simp [view, register_cache]
+  · exact view_runDrain s r
+
+theorem view_offerNew (s : State R) (r : R) (v : Nat) (deps : List R) :
+    view (offerNew s r v deps) = upd (view s) r (some (v, deps)) := by
+  rw [offerNew_eq, handle_eq]
+  funext x
+  by_cases hx : x = r
+  · subst hx; simp [view, commitState]
+  · simp [view, commitState, upd_other _ _ _ hx, register_cache, tick]
+
+theorem view_step (s : State R) (a : Action R) : view (step s a) = track (view s) a := by
+  cases a with
+  | bg r => exact view_bg s r
+  | offer r v deps =>
+    simp only [step, track, offer]
+    cases hc : s.cache r with
+    | none => simp [view, hc, view_offerNew]
+    | some e =>
+      have hv : view s r = some (e.version, e.deps) := by simp [view, hc]
+      rw [hv]
+      by_cases hev : e.version = v
+      · simp [hev]
+      · simp [hev, view_offerNew]
+  | delete r ver =>
+    simp only [step, track]
+    cases hc : s.cache r with
+    | none => simp [view, hc, delete]
+    | some e =>
+      have hv : view s r = some (e.version, e.deps) := by simp [view, hc]
+      rw [hv]
+      cases hs : staleVersion ver e.version with
+      | true => simp [delete, hc, hs]
+      | false =>
+        rw [delete_eq hc hs]
+        funext x
+        by_cases hx : x = r
+        · subst hx; simp [view, deleteState, hs]
+        · simp [view, deleteState, upd_other _ _ _ hx, hs]
+
+theorem view_run (acts : List (Action R)) (s : State R) :
+    view (run s acts) = acts.foldl track (view s) := by
+  induction acts generalizing s with
+  | nil => rfl
+  | cons a rest ih =>
+    simp only [run, List.foldl_cons]
+    have := ih (step s a)
+    simp only [run] at this
+    rw [this, view_step]
+
 end Koreo.HotReload
